@@ -157,6 +157,7 @@ func defaultInitPkgs() map[string]bool {
 		"strings":                              true,
 		"strconv":                              true,
 		"time":                                 true,
+		"github.com/jackc/puddle/v2":           true,
 	}
 }
 
